@@ -3,6 +3,7 @@
 package util
 
 import (
+	"sort"
 	"time"
 
 	"github.com/attestantio/vouch/internal/vnd"
@@ -197,4 +198,72 @@ func VerifC19_Bool() {
 		vnd.Cover("C19.bool.specific")
 	}
 	vnd.Assert(got == want, "C19.bool.longest-prefix")
+}
+
+// VerifC19_AddressesForDuties: the beacon nodes used for proposing / attesting
+// are the union, without duplicates and sorted, of the addresses the longest-
+// prefix rule gives for the strategy style in use (the top-level addresses for
+// an unknown or absent style).
+func VerifC19_AddressesForDuties() {
+	viper.Reset()
+	viper.Set("beacon-node-addresses", []string{"top-b", "top-a"})
+	set := func(path string, addrs ...string) {
+		if vnd.Bool("level-set") {
+			viper.Set(path+".beacon-node-addresses", addrs)
+		}
+	}
+	set("strategies", "strat")
+	set("strategies.beaconblockproposal", "prop-x", "top-a")
+	set("strategies.beaconblockproposal.best", "prop-best")
+	set("strategies.blindedbeaconblockproposal.first", "blind-first", "prop-x")
+	set("strategies.attestationdata.majority", "att-maj")
+	styles := []string{"", "best", "first", "majority", "other"}
+	ps, bs, as := styles[vnd.Choose("proposal.style", 5)], styles[vnd.Choose("blinded.style", 5)], styles[vnd.Choose("attestation.style", 5)]
+	if ps != "" {
+		viper.Set("strategies.beaconblockproposal.style", ps)
+	}
+	if bs != "" {
+		viper.Set("strategies.blindedbeaconblockproposal.style", bs)
+	}
+	if as != "" {
+		viper.Set("strategies.attestationdata.style", as)
+	}
+	pathFor := func(family, style string, known ...string) string {
+		for _, k := range known {
+			if style == k {
+				return "strategies." + family + "." + style
+			}
+		}
+		return ""
+	}
+	union := func(paths ...string) []string {
+		seen := map[string]bool{}
+		var out []string
+		for _, p := range paths {
+			for _, a := range BeaconNodeAddresses(p) {
+				if !seen[a] {
+					seen[a] = true
+					out = append(out, a)
+				}
+			}
+		}
+		sort.Strings(out)
+		return out
+	}
+	same := func(a, b []string) bool {
+		if len(a) != len(b) {
+			return false
+		}
+		for i := range a {
+			if a[i] != b[i] {
+				return false
+			}
+		}
+		return true
+	}
+	wantP := union(pathFor("beaconblockproposal", ps, "best", "first"), pathFor("blindedbeaconblockproposal", bs, "best", "first"))
+	vnd.Assert(same(BeaconNodeAddressesForProposing(), wantP), "C19.duties.proposing-nodes-are-those-of-the-styles-in-use")
+	wantA := union(pathFor("attestationdata", as, "best", "first", "majority"))
+	vnd.Assert(same(BeaconNodeAddressesForAttesting(), wantA), "C19.duties.attesting-nodes-are-those-of-the-style-in-use")
+	vnd.Cover("C19.duties.checked")
 }
